@@ -75,7 +75,8 @@ def cases(draw, exhaustive=False):
         # pure functions of the model's objects called before the knock-outs (copies, reaction arithmetic, pickles, text
         # forms): documented to leave their operands alone, so nothing below may depend on them (since seeded change C07-7)
         "harmless": [] if exhaustive else draw(st.one_of(st.just([]), st.just([]), st.lists(
-            st.tuples(st.sampled_from(["copy_rxn", "copy_rxn", "mul", "add", "sub", "model_copy", "pickle_rxn", "text", "gene_copy"]),
+            st.tuples(st.sampled_from(["copy_rxn", "copy_rxn", "mul", "add", "sub", "model_copy", "pickle_rxn", "text", "gene_copy",
+                                       "remove_readd", "remove_readd", "remove_readd_ctx"]),
                       st.integers(0, 20), st.integers(0, 20)), min_size=1, max_size=3))),
     }
 
@@ -189,6 +190,20 @@ def run_order(case, order, ctx, classes):
                 pickle.loads(pickle.dumps(a))
             elif kind == "gene_copy" and len(model.genes):
                 model.genes[i % len(model.genes)].copy()
+            elif kind in ("remove_readd", "remove_readd_ctx"):
+                # a reaction is taken out of the model and the same object is added again (its genes stay in the model
+                # meanwhile): the model is what it was (C02), the knock-outs below must not notice (since seeded change C07-8)
+                # (not inside a context on a copied/unpickled glpk_exact model: optlang rebuilds such a model with
+                # variables of the other interface class and the undo of a removal raises - known finding
+                # glpk-exact-copy-vartype of C01/C03/C12, nothing to do with knock-outs)
+                mixed = model.problem.__name__.endswith("glpk_exact_interface") and case["path"] in ("copied", "pickled")
+                if kind == "remove_readd_ctx" and not mixed:
+                    with model:
+                        model.remove_reactions([a])
+                        model.add_reactions([a])
+                else:
+                    model.remove_reactions([a])
+                    model.add_reactions([a])
             else:
                 str(a), repr(a), a.build_reaction_string(), a.gene_name_reaction_rule
         classes.add("~harmless-calls-first")
